@@ -2,7 +2,7 @@
 From Coq Require Import ZArith List Bool Lia.
 Import ListNotations.
 Require Export MV.Lib.Base MV.C02.Defs MV.C02.Gen MV.C02.Model MV.C02.Proofs_Base MV.C02.Proofs_Steps
-               MV.C02.Proofs_Edges MV.C02.Proofs_Faces MV.C02.Proofs_Corners MV.C02.Proofs_Attrs MV.C02.Proofs_Idem.
+               MV.C02.Proofs_Edges MV.C02.Proofs_Faces MV.C02.Proofs_Corners MV.C02.Proofs_Attrs MV.C02.Proofs_Idem MV.C02.Proofs_Clear.
 Open Scope Z_scope.
 
 (* two tetrahedra sharing a face, one declared face, declared edges among which a self-loop, an out-of-range edge and
@@ -49,5 +49,17 @@ Example ex_rebuild : wf_corners ex_raw /\
                    = map (fun na => map (attr_get (snd na)) (zrange 10)) (eattrs r1).
 Proof.
   split; [split; reflexivity|]. eexists. eexists. split; [vm_compute; reflexivity|].
+  split; [vm_compute; reflexivity|]. vm_compute. repeat split; reflexivity.
+Qed.
+
+(* the subdivision scenario: build, re-wrap, clear the three corner containers, add a vertex and a cell, build again:
+   12 cell-face records with their 12 owners *)
+Example ex_clear_edit_rebuild : fresh_corners ex_raw /\
+  exists r1 r2, instanciate (true, true) None ex_raw = Ok (3, r1)
+    /\ rebuild (true, true) None [EClearFC; EClearCC; EClearCF; EAddVertex [2; 2; 2]; EAddCell [2; 3; 4; 5]] 3 r1 = Ok (3, r2)
+    /\ cf_adj r2 = [0; 0; 0; 0; 1; 1; 1; 1; 2; 2; 2; 2] /\ length (cf_elem r2) = 12%nat
+    /\ cc_adj r2 = [0; 0; 0; 0; 1; 1; 1; 1; 2; 2; 2; 2].
+Proof.
+  split; [repeat split; reflexivity|]. eexists. eexists. split; [vm_compute; reflexivity|].
   split; [vm_compute; reflexivity|]. vm_compute. repeat split; reflexivity.
 Qed.
